@@ -44,6 +44,19 @@ static void gen_cfg(rng_t *r, cfg_t *c)
 	}
 }
 static const uint32_t Ls_twin[] = { 1, 4, 8, 13, 32 };
+/* now and then a small block of very long symbols: buffers of 128 KiB and more come from another part of the allocator, whose state
+ * (thresholds, recycled chunks) is shaped by every earlier session of the process */
+static void maybe_big_symbols(rng_t *r, cfg_t *c)
+{
+	static const uint32_t big[] = { 131072, 163840, 425984 };
+	if (rng_below(r, 14)) return;
+	c->L = big[rng_below(r, 3)];
+	if (c->codec == 5) { c->k = 4; c->r = 4; return; }
+	if (c->k > 5) c->k = 2 + rng_below(r, 4);
+	if (c->r > 5) c->r = 3 + rng_below(r, 3);
+	if (c->codec == 3) { if (c->r < 3) c->r = 3; if (c->N1 > c->r) c->N1 = c->r; if (c->N1 < 3) c->N1 = 3; }
+	if (c->codec == 2 && c->m == 4 && c->k + c->r > 15) c->r = 15 - c->k;
+}
 static int gen_scripts(uint64_t caseseed, script_t *S)
 {
 	rng_t r = rng_make(caseseed, 12, 12);
@@ -51,6 +64,7 @@ static int gen_scripts(uint64_t caseseed, script_t *S)
 	for (int i = 0; i < m; i++) {
 		script_t *s = &S[i]; memset(s, 0, sizeof *s);
 		gen_cfg(&r, &s->c);
+		maybe_big_symbols(&r, &s->c);
 		/* make same-codec neighbours likely: LDPC sessions with different seeds/N1 next to each other */
 		if (i > 0 && rng_below(&r, 2) == 0) {
 			/* near-twin of an earlier script: the same configuration with exactly one field changed. Process-global state
